@@ -261,6 +261,12 @@ func (w *walker) primitive(c *ast.CallExpr, deferred bool) (handled bool, dbBody
 	case "dht.DHT":
 		w.emit("EXT", "dht."+name, c.Pos())
 		return true, nil, ""
+	case "announcer.DHTAnnouncer", "announcer.PeriodicalAnnouncer", "announcer.StopAnnouncer", "verifier.Verifier", "allocator.Allocator":
+		// helper goroutines of a torrent: Close() = close(closeC); <-doneC, i.e. the caller JOINS the goroutine
+		if name == "Close" {
+			w.emit("JOIN", lastField(sel.X), c.Pos())
+			return true, nil, ""
+		}
 	case "rpcServer":
 		// resolved as a package method below (rpcServer.Start/Stop)
 	}
